@@ -175,6 +175,12 @@ type Program struct {
 	Decls   []Decl   // *RecordDef | *UnionDef | *FuncDef | *VarDef | *PkgInfo | *RecGroup
 }
 
+// RawDecl is a declaration given as source text (printed verbatim at column 0).
+type RawDecl struct {
+	Names []string // identifiers it defines
+	Text  string
+}
+
 // RecGroup is a `type A = ... and B = ...` group.
 type RecGroup struct {
 	Defs []Decl // *RecordDef | *UnionDef
